@@ -106,5 +106,30 @@ CHECKS["C03"] = dict(
          "classes of the wire message and the projections computed by the harness (encoding/xml token tree of the wire vs of the document the RFC prescribes for that call); TLC accepts the trace only if "
          "every conjunct of the request contract holds; a rejected session is reported with the failing conjunct and the remaining sessions are still validated.",
     note="Trusted: TLC, encoding/xml as the XML projection, the server model's strict decoder. 150 (quick) / 1200 (thorough) sessions.")
+CHECKS["C10"] = dict(
+    category="model_checking", design_ref="DESIGN.md §5 C10, §11",
+    technique="TLA+/TLC: Auth.tla enumerates every login script up to a bound for the telnet and the ssh dialogue style, checks the retry bound and credential/prompt pairing at every step and predicts the "
+              "outcome; each dialogue is replayed on generic.Driver.Open through a transport that declares in-channel authentication",
+    text="All well-formed scripts over banner / ask user / ask password / ask passphrase / reject / ssh failure line / shell / silence / peer closes the stream (<= 5 steps quick, 6 thorough; ~3.7k dialogues) "
+         "are generated with Bounded, Paired, OkIffShell as invariants and the predicted outcome (ok, auth, connection, timeout) and answers. The harness plays the script from a login front end (prompt "
+         "spellings and error lines rotated), and compares Open's error class, the (state, line) log of the device - each credential only in its own question, at most twice - the transport being "
+         "closed on every failure, and that the first GetPrompt after a successful login still finds the prompt read during login.",
+    note="Trusted: TLC, the login front end. Timeout 300 ms; a mismatching outcome must reproduce when the dialogue is re-executed alone. Banners contain nothing a prompt pattern accepts.")
+CHECKS["C11"] = dict(
+    category="model_checking", design_ref="DESIGN.md §5 C11, §11",
+    technique="TLA+/TLC trace validation: the dialogues of Auth.tla and InteractiveScn.tla (incl. injected failures around the secret and escalation inside a network on-open hook) run with a debug logger "
+              "and a channel log; LogTrace.tla requires the taint set of every recorded log message to be empty",
+    text="Auth.tla carries the taint invariant NoTaint (every credential write is redacted); the binding records every message given to a debug-level logger and the whole channel log for ~1.2k "
+         "sessions (login dialogues with 0-3 rejections, failures and timeouts; hidden interactive inputs; escalation that asks / grants / refuses / rejects; the write of the secret failing; the connection "
+         "breaking right after the secret) and TLC validates LogTaint = {} at every event. Secrets contain format verbs and regex metacharacters.",
+    note="Trusted: TLC; substring search as the taint projection; the device model never echoes secrets (assumption stated by the property).")
+CHECKS["C12"] = dict(
+    category="model_checking", design_ref="DESIGN.md §5 C12, §11",
+    technique="TLA+/TLC trace validation: InteractiveScn.tla generates dialogues, plain commands and escalations; the device model produces its reactions after a delay and records how much of its stream had "
+              "been delivered when each client write arrived; PacingTrace.tla (the enabling conditions of Stall.tla's write actions) validates every write",
+    text="For every recorded write TLC checks: an event's input only after the previous exchange's expected response (or prompt) was delivered; a plain command's return only after its echo was delivered "
+         "unless eager; the secondary secret only while the device is in its password state (never when the device grants or refuses without asking); a successful interactive result contains the whole "
+         "dialogue. Dialogues include hidden inputs, responses preceded by a prompt-looking line, early completion by a completion pattern, generic and network drivers.",
+    note="Trusted: TLC; device-side exchange lengths; reactions delayed 0.3-2.3 ms so that typing ahead is observable. The property does not require an echo wait for interactive events, so none is demanded.")
 PENDING_REASON = "check not built yet in this session (work in progress; see DESIGN.md §5 for the planned TLA+ specification and binding)"
 NOT_APPLICABLE = {}
